@@ -36,7 +36,7 @@ var reserved = map[string]bool{
 	"ensures": true, "modifies": true, "loop": true, "invariant": true, "inline": true, "pure": true,
 	"forall": true, "exists": true, "struct": true, "var": true, "const": true,
 	"impl": true, "callinv": true, "unchecked": true, "assumes": true, "lockfree": true, "guarded": true, "acquires": true,
-	"nopanic": true, "terminates": true, "derived": true, "view": true, "private": true, "abstractbody": true, "let": true, "in": true, "reads": true,
+	"nopanic": true, "terminates": true, "derived": true, "assumed": true, "view": true, "private": true, "abstractbody": true, "let": true, "in": true, "reads": true,
 }
 
 func lexSpec(file string, startLine int, src string) ([]stok, error) {
@@ -241,6 +241,7 @@ type Contract struct {
 	NoPanic  bool // trusted: callee does not panic (default true for trusted)
 	Abstract bool // body not verified (abstracted function), contract assumed => listed as assumption
 	Flags    map[string]bool
+	Assumed  map[string]bool   // clause ids that are environment assumptions (not proved by implementations)
 	Derived  map[string]string // clause id -> lemma by which it follows from the other clauses
 	File     string
 	Line     int
@@ -626,6 +627,14 @@ func (p *parser) parseContract() *Contract {
 				c.Derived = map[string]string{}
 			}
 			c.Derived[id] = ln
+		case p.accept("assumed"):
+			// assumed <clause id>: an environment assumption stated as a clause of an interface
+			// contract (e.g. A-FRESH); implementations are not asked to prove it, it is listed
+			id := p.next().s
+			if c.Assumed == nil {
+				c.Assumed = map[string]bool{}
+			}
+			c.Assumed[id] = true
 		case p.accept("inline"):
 			c.Inline = true
 		case p.accept("pure"):
